@@ -140,7 +140,7 @@ JSDo(j, c) ==
     [] j.m = "d2" -> IF c = 62 /\ j.ls THEN [j EXCEPT !.m = "lc", !.u = 0] ELSE JSDo(JSPunct(j, <<P(45), P(45)>>, TRUE), c)
     [] OTHER -> j      \* "ovf", "err": absorbing
 
-JSStep(j, c) == JSDo([j EXCEPT !.o = <<>>], c)
+JSStep(j, c) == JSDo(IF j.o = <<>> THEN j ELSE [j EXCEPT !.o = <<>>], c)
 
 JSSlot(j) ==
   CASE j.m \in {"code", "lt1", "lt2", "lt3", "d1", "d2"} -> "js-code"
@@ -171,7 +171,7 @@ JSONDo(n, c) ==
                         [] c < 32 -> [n EXCEPT !.m = "v", !.o = Append(@, TBAD)]
                         [] OTHER -> n
     [] OTHER -> [n EXCEPT !.m = "str"]      \* "stre"
-JSONStep(n, c) == JSONDo([n EXCEPT !.o = <<>>], c)
+JSONStep(n, c) == JSONDo(IF n.o = <<>> THEN n ELSE [n EXCEPT !.o = <<>>], c)
 JSONSlot(n) == IF n.m = "v" THEN "json-value" ELSE "json-string"
 JSONFlush(n) == JSONStep(n, 32).o
 JSONNorm(n) == [n EXCEPT !.o = <<>>]
